@@ -51,6 +51,9 @@ func init() {
 				add("hashmap-s1-empty-key-k3", merge(base, p("k", 3, "ops", opPut|opDelete, "index", 3, "shards", 1, "vlens", 2, "emptykey", 1)))
 				// DataFileSize from 1 byte up: smaller than any record, exactly one record, one byte more ...
 				add("hashmap-s1-tiny-dfs-k2", merge(base, p("k", 2, "ops", opPut|opDelete|opMerge, "index", 3, "shards", 1, "vlens", 2, "dfs_lo", 1, "dfs_hi", 30)))
+				// a crowd of 70 more (concrete, untouched) keys: B-tree node splits (degree 32), skip-list levels, every shard populated
+				add("btree-s1-crowd70-k2", merge(base, p("crowd", 70, "k", 2, "ops", opPut|opDelete, "index", 1, "shards", 1, "vlens", 1, "dfs_lo", 0, "dfs_hi", 0)))
+				add("skiplist-s3-crowd40-k2", merge(base, p("crowd", 40, "k", 2, "ops", opPut|opDelete, "index", 2, "shards", 3, "vlens", 1, "dfs_lo", 0, "dfs_hi", 0)))
 				// REAL geometry (32 KiB blocks, nothing scaled): value lengths in a window around the one that ends the
 				// record on the first block boundary; long values are concrete filler with 3 symbolic bytes
 				js = append(js, JobSpec{Name: "real-geometry-block-boundary-k2", Harness: "root", Func: "verifHarnessC01", Params: merge(base, p("k", 2, "ops", opPut|opDelete, "index", 3, "shards", 1, "vlens", 1, "vwin_lo", 32768-30, "vwin_hi", 32768-10, "sparse", 1, "dfs_lo", 0, "dfs_hi", 0)), Scale: map[string]string{}, ConcCap: 256})
@@ -153,6 +156,7 @@ func init() {
 				add("cfgsweep-k2", merge(base, p("cfgsweep", 2, "k", 2, "k2", 0, "ops", opPut|opDelete|opBatch, "bmax", 1, "vlens", 1, "r_index", 2, "r_shards", 2, "dfs_lo", 40, "dfs_hi", 40)))
 				// value lengths where the uvarint length field of the record header changes width
 				add("varint-width-values-k2", merge(base, p("k", 2, "ops", opPut|opDelete, "vlens", 5, "vbig", 127, "vbig2", 128, "vbig3", 129, "index", 3, "shards", 1, "r_io", 2)))
+				add("btree-crowd70-k1-k1", merge(base, p("crowd", 70, "k", 1, "k2", 1, "ops", opPut|opDelete, "vlens", 1, "index", 1, "shards", 1, "r_index", 2, "r_shards", 3)))
 			} else {
 				add("end-offsets-std", merge(base, p("k", 1, "ops", opPut, "vlens", 4, "vbig2", -100, "index", 3, "shards", 1)))
 				add("end-offsets-mmap", merge(base, p("k", 1, "ops", opPut, "vlens", 4, "vbig2", -100, "index", 3, "shards", 1, "io", 1, "r_io", 1)))
@@ -207,6 +211,8 @@ func init() {
 					add(fmt.Sprintf("skiplist-s2-keyfamily%d-rev", fam), p("calls", 3, "ckeys", fam, "index", 2, "shards", 2, "reverse", 1), 0)
 				}
 				add("btree-s1-keyfamily2-fwd-prefix", p("calls", 3, "ckeys", 2, "index", 1, "shards", 1, "prefix", 1), 0)
+				add("btree-s1-crowd70-fwd", p("calls", 2, "pool", 2, "klen", 1, "crowd", 70, "index", 1, "shards", 1), 0)
+				add("hashmap-s3-crowd20-rev", p("calls", 2, "pool", 2, "klen", 1, "crowd", 20, "index", 3, "shards", 3, "reverse", 1), 0)
 				add("btree-s1-rev-prefix-klen3", p("calls", 2, "pool", 2, "klen", 3, "index", 1, "shards", 1, "reverse", 1, "prefix", 1), 0)
 				add("hashmap-s2-fwd-prefix-klen3", p("calls", 2, "pool", 2, "klen", 3, "index", 3, "shards", 2, "reverse", 0, "prefix", 1), 0)
 			} else {
